@@ -87,6 +87,8 @@ def _mkspec(rng, fmt):
         base['kind'] = fmt
         if base['nt'] == 1 and rng.random() < 0.8:
             base['nt'] = rng.randrange(2, 5)
+        if fmt == 'wind' and rng.random() < 0.3:
+            base['nostagger'] = True       # older flavour: 8-byte time records
     return base
 
 
